@@ -28,6 +28,7 @@ func GenC06(verifSeed uint64, run int) *Scenario {
 		plan.PartialN = append(plan.PartialN, g.Uint64())
 	}
 	plan.Invalid = genInvalid(g, &w, cfg)
+	plan.CLI = g.Bool(0.35)
 	return &Scenario{Property: "C06", VerifSeed: verifSeed, Run: run, RunSeed: seed, World: w, C06: plan}
 }
 
@@ -162,6 +163,9 @@ func RunC06(rt *Runtime, sc *Scenario) RunResult {
 			st.runVariant(v)
 		}
 		st.runInvalid()
+		if plan.CLI && res.Trouble == "" {
+			st.runCLITier()
+		}
 	}
 	for k := range st.dist {
 		res.Distinct = append(res.Distinct, k)
@@ -367,6 +371,10 @@ func (s *c06state) runInvalid() {
 // runListedCase re-runs exactly one case (replay / minimisation).
 func (s *c06state) runListedCase(c *Case) {
 	w := &s.sc.World
+	if c.Class == "cli" {
+		s.runCLITier()
+		return
+	}
 	var ref *RefInfo
 	if c.Class == "sink" || c.Class == "signer" {
 		r, ok := s.reference(Variant{Format: c.Format, Sign: c.Sign}, c.Config)
